@@ -1171,6 +1171,7 @@ func (d *HAMTDirectory) needsToSwitchToBasicDir(ctx context.Context, name string
 		if err != nil {
 			return false, err
 		}
+		link.Name = name // MakeLink leaves Name empty
 		operationSizeChange += d.linkSizeFor(link)
 	}
 
